@@ -36,14 +36,15 @@ const ZXST_BLOCK_HEADER_SIZE: usize = 8; // The header for each block
 
 // Process Creator (CRTR) block
 fn process_crtr_block<H: Host>(_: &mut Emulator<H>, block_data: &[u8]) {
+    // Creator info is not used by emulator, name could be not even valid UTF-8
     let crtr_name_bytes = &block_data[0..33];
-    let _ = from_utf8(crtr_name_bytes).unwrap();
+    let _ = from_utf8(crtr_name_bytes);
     let _ = u16::from_le_bytes([block_data[33], block_data[34]]);
     let _ = u16::from_le_bytes([block_data[35], block_data[36]]);
 }
 
 // Process ZXSTZ80REGS (Z80R) block
-fn process_z80r_block<H: Host>(emulator: &mut Emulator<H>, block_data: &[u8]) {
+fn process_z80r_block<H: Host>(emulator: &mut Emulator<H>, block_data: &[u8]) -> Result<()> {
     // AF
     emulator
         .cpu
@@ -135,6 +136,9 @@ fn process_z80r_block<H: Host>(emulator: &mut Emulator<H>, block_data: &[u8]) {
     emulator.cpu.regs.set_iff2(block_data[27] > 0);
 
     // IM
+    if block_data[28] > 2 {
+        return Err(SnapshotLoadError::InvalidSZXFile.into());
+    }
     emulator.cpu.set_im(block_data[28]);
 
     // dwCyclesStart
@@ -165,6 +169,8 @@ fn process_z80r_block<H: Host>(emulator: &mut Emulator<H>, block_data: &[u8]) {
         .cpu
         .regs
         .set_mem_ptr(u16::from_le_bytes([block_data[35], block_data[36]]));
+
+    Ok(())
 }
 
 // Process ZXSTSPECREGS (SPCR) block
@@ -192,7 +198,7 @@ fn process_spcr_block<H: Host>(emulator: &mut Emulator<H>, machine_id: u32, bloc
     // chBorder
     // Setting the border after the out to 0xfe above because that too
     // sets the border color.
-    emulator.controller.border_color = ZXColor::from_bits(block_data[0]);
+    emulator.controller.border_color = ZXColor::from_bits(block_data[0] & 0x07);
 }
 
 // Process ZXSTAYBLOCK (AY00)
@@ -273,6 +279,14 @@ fn process_ramp_block<H: Host>(
         };
     }
 
+    let pages_count = match emulator.settings.machine {
+        ZXMachine::Sinclair48K => 3,
+        ZXMachine::Sinclair128K => 8,
+    };
+    if page_num >= pages_count {
+        return Err(SnapshotLoadError::InvalidSZXFile.into());
+    }
+
     let page_data = emulator.controller.memory.ram_page_data_mut(page_num);
 
     if flags & ZXSTRF_COMPRESSED != 0 {
@@ -284,16 +298,22 @@ fn process_ramp_block<H: Host>(
             let compressed_data: Vec<u8> = block_data[3..].to_vec();
             match decompress_zlib_stream(&compressed_data) {
                 Ok(data) => {
+                    if data.len() < page_data.len() {
+                        return Err(SnapshotLoadError::InvalidSZXFile.into());
+                    }
                     return {
                         page_data.copy_from_slice(&data[..page_data.len()]);
                         Ok(())
-                    }
+                    };
                 }
                 Err(_) => return Err(SnapshotLoadError::InvalidSZXFile.into()),
             }
         }
     } else {
-        let uncompressed_data: Vec<u8> = block_data[3..].to_vec();
+        let uncompressed_data = &block_data[3..];
+        if uncompressed_data.len() < page_data.len() {
+            return Err(SnapshotLoadError::InvalidSZXFile.into());
+        }
         page_data.copy_from_slice(&uncompressed_data[..page_data.len()]);
     }
 
@@ -316,7 +336,7 @@ where
     H: Host,
     A: LoadableAsset + SeekableAsset,
 {
-    let _ = asset.seek(SeekFrom::End(0))?;
+    let file_size = asset.seek(SeekFrom::End(0))?;
     let mut cursor_pos = 0;
     asset.seek(SeekFrom::Start(0))?;
 
@@ -368,8 +388,29 @@ where
             block_header[2],
             block_header[3],
         ];
-        let id_str = from_utf8(id_bytes).unwrap().to_uppercase();
+        // Block with unreadable id is unknown block, it will be skipped as any other one
+        let id_str = from_utf8(id_bytes).unwrap_or("").to_uppercase();
         cursor_pos += ZXST_BLOCK_HEADER_SIZE;
+
+        // Block can't be bigger than the rest of the file
+        if size as usize > file_size.saturating_sub(cursor_pos) {
+            return Err(SnapshotLoadError::InvalidSZXFile.into());
+        }
+
+        // Known blocks have fixed minimal size
+        let min_size = match id_str.as_str() {
+            "CRTR" => 37,
+            "Z80R" => 37,
+            "SPCR" => 8,
+            "AY\0\0" => 18,
+            "KEYB" => 5,
+            "AMXM" => 7,
+            "RAMP" => 3,
+            _ => 0,
+        };
+        if (size as usize) < min_size {
+            return Err(SnapshotLoadError::InvalidSZXFile.into());
+        }
 
         // ZXST Block Data
         asset.seek(SeekFrom::Start(cursor_pos))?;
@@ -384,7 +425,7 @@ where
                 process_crtr_block(emulator, &block_data);
             }
             "Z80R" => {
-                process_z80r_block(emulator, &block_data);
+                process_z80r_block(emulator, &block_data)?;
             }
             "SPCR" => {
                 process_spcr_block(emulator, machine_id, &block_data);
